@@ -1,3 +1,119 @@
-"""Positive controls (E4): run every template on the fixture crate; bad twins must fire, good twins pass."""
-def run(cfacts, prop):
-    return dict(fired=0, expected=0, silent=[])
+"""Positive controls (E4): every template is run on the fixture crate on every check; the seeded
+bad twin must be reported and the good twin must pass.  A silent control is a checker failure."""
+import re
+from . import templates as T
+from .dataflow import Slicer
+from .core import Ctx
+
+
+class _C(Ctx):
+    """throw-away context: collects verdicts without touching evidence"""
+    def __init__(self, F):
+        super().__init__('control', 'quick', F, Slicer(F, depth=4))
+
+
+def _fn(F, name):
+    for n, b in F.bodies.items():
+        if b.kind == 'fn' and (n == name or n.endswith('::' + name)): return b
+    return None
+
+
+def _verdict(ctx):
+    return bool(ctx.violations)
+
+
+def run(F, prop):
+    from .rules import common as K
+    from .rules import feas
+    results = []          # (name, bad_fired, good_silent)
+
+    def twin(name, fn):
+        out = []
+        for kind in ('bad', 'good'):
+            b = _fn(F, '%s_%s' % (name, kind))
+            if b is None:
+                out.append(None); continue
+            ctx = _C(F)
+            try:
+                fn(ctx, b)
+            except Exception as e:          # a crashing template is a silent control
+                out.append(None); continue
+            out.append(_verdict(ctx))
+        results.append((name, out[0] is True, out[1] is False))
+
+    twin('cover', lambda c, b: K.cover(c, 'ctl/cover', b, 'Msg'))
+    def carry(c, b):
+        agg = K.find_aggregates(b, 'Out')[0][1]
+        K.carry_field(c, 'ctl/carry', b, agg, 'b', need_fields=[('Msg', 'b')])
+    twin('carry', carry)
+    twin('guard', lambda c, b: K.guard(c, 'ctl/guard', b, lambda x: x.item == 'is_empty', True, 'a.is_empty()'))
+    def guard_and(c, b):
+        for fld in ('a', 'b'):
+            K.guard(c, 'ctl/guard-and/' + fld, b, lambda x, fld=fld: x.item == 'is_empty' and ('Msg', fld) in T.access_path(b, x.args[0])[0], True, fld + '.is_empty()')
+    twin('guard_and', guard_and)
+    twin('mustcall', lambda c, b: K.mustcall(c, 'ctl/mustcall', b, lambda x: x.item == 'validate', 'validate(m)?'))
+    twin('errflow', lambda c, b: K.errflow_calls(c, 'ctl/errflow', b, [x for x in b.calls if x.item == 'get'], 'lookup'))
+    twin('errflow_match', lambda c, b: K.errflow_calls(c, 'ctl/errflow-match', b, [x for x in b.calls if x.item == 'get'], 'lookup'))
+    def loopmust(c, b):
+        for lo in T.for_loops(b): K.loop_must(c, 'ctl/loopmust', b, lo, lambda x: x.item == 'push', 'push')
+    twin('loopmust', loopmust)
+    # restricted iterator: only a bad twin (good twin = loopmust_good)
+    b = _fn(F, 'loopmust_restricted_bad'); ctx = _C(F)
+    if b is not None:
+        loopmust(ctx, b)
+    results.append(('loopmust_restricted', _verdict(ctx), True))
+    def atomic(c, b):
+        for what, bi, bad in T.check_atomic(b, c.S, c.F):
+            c.check(not bad, 'ctl/atomic', 'T-ATOMIC', b.name, 'err after mutation')
+    twin('atomic', atomic)
+    twin('only', lambda c, b: K.writes_only(c, 'ctl/only', b, {'items'}))
+    def table(c, b):
+        from .rules.C17 import literal_table
+        tab = literal_table(b)
+        c.check({'LO', 'UP', 'FX'} <= set(tab), 'ctl/table/keywords', 'T-TABLE', b.name, 'missing keyword')
+        rest = b.reach([0], stop={t for t, f, x in tab.values()})
+        c.check(not (rest & b.strict_ok_exits()), 'ctl/table/fallthrough', 'T-TABLE', b.name, 'unknown keyword accepted')
+    twin('table', table)
+    def feas_(c, b):
+        cm = []
+        for bi, st in b.stmts():
+            if st['rv']['k'] == 'bin' and st['rv']['op'] in ('Lt', 'Le', 'Gt', 'Ge') and st['rv'].get('ty') == 'f64':
+                cm.append((st['rv']['op'], [T.f64_const(o['v']) for o in st['rv']['ops'] if o['k'] == 'const']))
+        c.check(sorted(cm) == [('Lt', [1e-6]), ('Lt', [1e-6])], 'ctl/const', 'T-CONST', b.name, 'comparison shape / tolerance %s' % cm)
+    twin('feas', feas_)
+    def acc(c, b):
+        accs = [l for l, ty in enumerate(b.locals) if ty == 'f64' and len(b.defs_of(l)) >= 2]
+        ok = False
+        for l in accs:
+            init, ups = T.accumulator(b, l)
+            if ups: ok = all(op == 'Add' for op, s, x, bi in ups)
+        c.check(ok, 'ctl/accumulator', 'T-BRANCHFX', b.name, 'accumulator not updated by +=')
+    twin('acc', acc)
+    # T-DELEG
+    for kind, nm in (('bad', 'SubBad'), ('good', 'SubGood')):
+        pass
+    def deleg(body):
+        calls = [x for x in body.calls if re.search(r'ops::(Add|Neg)$', x.trait or '')]
+        kinds = sorted(re.search(r'ops::(\w+)$', x.trait).group(1) for x in calls)
+        return kinds == ['Add', 'Neg']
+    sb = [b for b in F.bodies.values() if b.kind == 'fn' and b.hdr.get('item') == 'sub' and 'SubBad' in (b.hdr.get('self') or '')]
+    sg = [b for b in F.bodies.values() if b.kind == 'fn' and b.hdr.get('item') == 'sub' and 'SubGood' in (b.hdr.get('self') or '')]
+    results.append(('deleg', bool(sb) and not deleg(sb[0]), bool(sg) and deleg(sg[0])))
+    # T-SCHEMA: in-memory control (no fixture needed)
+    from .schema import protoparse as PP
+    import tempfile, os
+    d = tempfile.mkdtemp()
+    try:
+        os.makedirs(os.path.join(d, 'x'))
+        open(os.path.join(d, 'x', 'm.proto'), 'w').write('syntax = "proto3";\npackage t.v1;\nmessage M { uint64 id = 1; repeated int64 s = 8; oneof o { double c = 2; } }\n')
+        msgs, enums, files = PP.load(d)
+        m = msgs['t.v1.M']
+        exp = {f['name']: (f['number'], PP.wire_of(msgs, enums, 't.v1.M', f)) for f in m['fields']}
+        good = exp == {'id': (1, (0, False)), 's': (8, (2, True)), 'c': (2, (1, False))}
+        bad_table = {'id': (1, (0, False)), 's': (9, (2, True)), 'c': (2, (1, False))}
+        results.append(('schema', exp != bad_table, good))
+    finally:
+        import shutil; shutil.rmtree(d, ignore_errors=True)
+    silent = [n for n, bad_fired, good_ok in results if not (bad_fired and good_ok)]
+    return dict(fired=sum(1 for n, b_, g in results if b_), expected=len(results), good_silent=sum(1 for n, b_, g in results if g), silent=silent,
+                controls=[n for n, b_, g in results])
